@@ -4,6 +4,12 @@ _BASE_NOTE = ("Trusted: CrossHair's symbolic models of str/int/list and z3 (for 
               "bounds per condition as written to evidence (pre: lines). Nothing is claimed outside the bounds.")
 
 CLAIMS = {
+    "C06": {
+        "technique": "bounded symbolic execution (CrossHair/z3) over documents, transformation subsets and small sub-languages: rule sets reported by the real validator are invariant under validity-preserving transformations and equal spec references on sub-languages",
+        "text": "Metamorphic: 60 documents x subsets of 8 transformations x 4 re-spellings keep the set of violated rules and the verdict. Mutants: 30 single-rule mutants (all 26 rules) are reported by their rule. "
+                "Spec equivalence, exhaustively: every spread graph on 3 fragments x 6 orders (cycles), variable use through fragment chains x 6 orders, operation-name sequences, possible spreads over the type lattice.",
+        "note": _BASE_NOTE + " Equivalence with all 26 specification rules on arbitrary documents is NOT claimed: only the listed sub-languages and the template family.",
+    },
     "C04": {
         "technique": "bounded symbolic execution (CrossHair/z3) over template, data-world, failure, variable and history choice variables: real graphql_blocking vs a reference executor transcribed from spec section 6",
         "text": "20 valid operation templates over a fixed 10-type schema x null placements x failing-resolver sets x variable assignments x request histories on the same Schema object: ordered data and the multiset of (error path, field location) equal the reference interpreter's.",
